@@ -17,7 +17,7 @@ RULE = ("cases = (configuration, step) pairs enumerated exhaustively by TLC from
         "cluster.NewForT artifacts of every version, json.Unmarshal + VerifyHashes + VerifySignatures, keystore loaders, "
         "combine.Combine; distinct_nontrivial = distinct (version, artifact, leaf, alteration) with a changed value")
 NETS = ["mainnet", "goerli", "gnosis", "chiado", "sepolia", "hoodi"]
-AMOUNT_SETS = [[32], [1, 31], [16, 16], [8, 8, 16], [1, 32], [31, 1, 1]]
+AMOUNT_SETS = [[32], [1, 31], [16, 16], [8, 8, 16], [1, 32], [31, 1, 1], [8, 8, 8, 8], [1, 1, 30]]
 AMOUNT_SETS_COMP = AMOUNT_SETS + [[32, 64], [1, 2047], [256, 8, 32]]
 
 
@@ -47,6 +47,10 @@ def fill_cfg(r, base, n=None, t=None):
         c["comp"] = r.random() < 0.3
         c["amounts"] = r.choice([[]] + (AMOUNT_SETS_COMP if c["comp"] else AMOUNT_SETS))
         c["gas"] = r.choice([30000000, 36000000, 60000000])
+        # half of the created clusters get their configuration through a cluster definition file
+        c["deffile"] = r.random() < 0.5
+        if c["deffile"] and c["net"] in ("mainnet", "gnosis"):   # a definition file + --insecure-keys is refused there
+            c["net"] = r.choice([x for x in NETS if x not in ("mainnet", "gnosis")])
     c["fee"] = [addr(r) for _ in range(c["v"])]
     c["wd"] = [addr(r) for _ in range(c["v"])]
     if r.random() < 0.3:    # one address for all validators is a common configuration
